@@ -249,34 +249,48 @@ func checkSelectorAction(r *Run, ga *GA, sn *peg.Node, pfx string) {
 	isPtr := typ == "SelectorTypeJsonPointer"
 	// the parts are assembled in source order: Path starts with the first part (if any) and every later part is appended at the end
 	orderOK, nApp := true, 0
+	bodies := []*ast.BlockStmt{fd.Body}
+	// helpers of package grammar called by the action take part (e.g. a shared "append the parts" function)
 	ast.Inspect(fd.Body, func(x ast.Node) bool {
-		switch v := x.(type) {
-		case *ast.AssignStmt:
-			if len(v.Lhs) == 1 && len(v.Rhs) == 1 {
-				if l, ok := v.Lhs[0].(*ast.SelectorExpr); ok && l.Sel.Name == "Path" {
+		if call, ok := x.(*ast.CallExpr); ok {
+			if id, ok := call.Fun.(*ast.Ident); ok {
+				if f, ok := info.Uses[id].(*types.Func); ok && f.Pkg() == ga.prog.Grammar.Types {
+					if hd := funcDecl(ga.prog.Grammar, "", f.Name()); hd != nil && hd.Body != nil {
+						bodies = append(bodies, hd.Body)
+					}
+				}
+			}
+		}
+		return true
+	})
+	for _, body := range bodies {
+		ast.Inspect(body, func(x ast.Node) bool {
+			switch v := x.(type) {
+			case *ast.AssignStmt:
+				if len(v.Lhs) == 1 && len(v.Rhs) == 1 {
 					if call, ok := ast.Unparen(v.Rhs[0]).(*ast.CallExpr); ok {
-						if id, ok := call.Fun.(*ast.Ident); ok && id.Name == "append" {
+						if id, ok := call.Fun.(*ast.Ident); ok && id.Name == "append" && info.Uses[id] == types.Universe.Lookup("append") {
 							nApp++
-							a0, ok := ast.Unparen(call.Args[0]).(*ast.SelectorExpr)
-							if !ok || a0.Sel.Name != "Path" || types.ExprString(a0.X) != types.ExprString(l.X) || len(call.Args) != 2 || call.Ellipsis.IsValid() {
+							// appended at the end of the very slice being built: x = append(x, part)
+							if types.ExprString(ast.Unparen(call.Args[0])) != types.ExprString(v.Lhs[0]) || len(call.Args) != 2 || call.Ellipsis.IsValid() {
 								orderOK = false
 							}
 						}
 					}
 				}
-			}
-		case *ast.RangeStmt:
-			// ascending range over the label's []interface{}; no index arithmetic
-			if v.Key != nil {
-				if id, ok := v.Key.(*ast.Ident); !ok || id.Name != "_" {
-					orderOK = false
+			case *ast.RangeStmt:
+				// ascending range over the label's []interface{}; no index arithmetic
+				if v.Key != nil {
+					if id, ok := v.Key.(*ast.Ident); !ok || id.Name != "_" {
+						orderOK = false
+					}
 				}
+			case *ast.ForStmt:
+				orderOK = false
 			}
-		case *ast.ForStmt:
-			orderOK = false
-		}
-		return true
-	})
+			return true
+		})
+	}
 	r.Check(pfx+".selector-action", fd.Name.Name+":parts-in-order", ga.prog.pos(fd.Pos()), orderOK && nApp >= 1, "the selector's Path must be built by appending each part at the end, in source order (ranging the parts ascending)")
 	var parseCall *ast.CallExpr
 	ast.Inspect(fd.Body, func(x ast.Node) bool {
